@@ -254,6 +254,23 @@ from harness import composite as _cp  # noqa: E402
 HARNESSES["compdec"]["build"] = _cp.build_composite
 
 
+# conversions that can fail arithmetically on particular raw values: non-finite floats into an
+# integer physical type, the pole of a rational function, a float that overflows the int range
+NUMERIC_TRAPS = [
+    dict(cmname="trap-float32-to-int", W=160, dt="A_FLOAT32", enc=None, bl=32, bitpos=0, hl=True, bytepos=None, ptype="A_INT32",
+         cm={"cat": "LINEAR", "scales": [{"num": [0, 2], "den": [1]}]}),
+    dict(cmname="trap-float-outside-limits", dt="A_FLOAT32", enc=None, bl=32, bitpos=0, hl=True,
+         bytepos=None, ptype="A_FLOAT64",
+         cm={"cat": "LINEAR", "scales": [{"num": [0, 1], "den": [1], "lo": 0, "hi": 10}]}),
+    dict(cmname="trap-ratfunc-pole-4", dt="A_UINT32", enc=None, bl=8, bitpos=0, hl=True, bytepos=None, ptype="A_FLOAT64",
+         cm={"cat": "RAT-FUNC", "scales": [{"num": [10], "den": [-4, 1]}]}),
+    dict(cmname="trap-ratfunc-pole-0-int", dt="A_INT32", enc=None, bl=8, bitpos=0, hl=True, bytepos=None, ptype="A_INT32",
+         cm={"cat": "RAT-FUNC", "scales": [{"num": [100], "den": [0, 1]}]}),
+    dict(cmname="trap-ratfunc-pole-float", dt="A_FLOAT32", enc=None, bl=32, bitpos=0, hl=True, bytepos=None, ptype="A_FLOAT64",
+         cm={"cat": "RAT-FUNC", "scales": [{"num": [1], "den": [0, 1]}]}),
+]
+
+
 def configs(tier, seed):
     out = []
     from harness import c06 as _c06
@@ -277,7 +294,7 @@ def configs(tier, seed):
                 out.append({"id": f"compdec/{what}/{name}/len{n}", "harness": "compdec", "what": what,
                             "name": name, "mlen": n, "build": {"what": what, "name": name}})
     seen = set()
-    for a in cc.atoms(tier, seed):
+    for a in cc.atoms(tier, seed) + NUMERIC_TRAPS:
         b = {k: v for k, v in a.items() if k not in ("vlen", "sidx", "slen")}
         key = json.dumps(b, sort_keys=True)
         if key in seen:
